@@ -70,6 +70,7 @@ func checkC14(w *World, r *Report) {
 	// Equal_Q reads both operands through the sequence accessor and drops its error: sound only as long as the
 	// accessor cannot fail for a list or a vector, whatever it holds
 	accessorTotalRule(w, r, e, "C14.accessor-total")
+	equalityReadsValOnlyRule(w, r, "C14.val-only")
 	r.rule("C14.go-equality", "Go's == / != on two lisp values is used only where neither can be a comparable struct that carries a source position (a Symbol read from text compares unequal to the same symbol read elsewhere): such values must go through Equal_Q's own case")
 	goEqualityRule(w, r, e, "C14.go-equality")
 	r.rule("C14.symmetric-shape", "every collection case compares the sizes of both operands before comparing elements, and the two sequence cases recurse through the same function element by element")
@@ -535,6 +536,8 @@ func checkC13(w *World, r *Report) {
 	droppedErrorRule(w, r, "C13.errors-surface")
 	accessorTotalRule(w, r, e, "C13.accessor-total")
 	allArgumentsRule(w, r, e, "C13.all-arguments")
+	argLoopCompleteRule(w, r, "C13.argument-loop")
+	indexAsGivenRule(w, r, "C13.index-as-given")
 	keyContentRule(w, r, "C13.key-content")
 	loopErrorRule(w, r, "C13.loop-errors", func(fn *ssa.Function) bool {
 		return strings.HasPrefix(fnPkgPath(fn), modPath+"/lib/") || fnPkgPath(fn) == modPath+"/types"
@@ -1281,6 +1284,7 @@ func checkC17(w *World, r *Report) {
 		r.check(okSpan, "C17.span", rl, "cursor of a collection", rl.Pos(), "first token's cursor closed at the token that matched the closer", "the collection's cursor does not span from its first to its last token")
 	}
 	macroSpanRule(w, r, "C17.macro-span")
+	macroOperandDirectRule(w, r, "C17.macro-operands")
 	rethrowLint(w, r, "C17.lisp-rethrow")
 	// the rows the scanner counts are the rows of the text the caller passed
 	textIntactRule(w, r, "C17.text-intact")
@@ -1565,7 +1569,15 @@ func checkC19(w *World, r *Report) {
 	// an error that comes out of a future is the error its body raised: nothing formats it (with the module, rows
 	// and columns its text carries) into a new error value that catch would bind
 	r.include("C19.future-", "C10.", "what a failed future delivers is the error its body came to, not a new error made from that error's positioned text", checkC10, func(rule string) bool {
-		return rule == "C10.outcome-own"
+		return rule == "C10.outcome-own" || rule == "C10.redeposit"
+	})
+	// REPL prints the value of every form it is fed, the wrapped routes print nothing in between: printing a value
+	// changes nothing (a printer that takes a delivered outcome out of a future makes the routes differ)
+	printPureRule(w, r, "C19.print-pure")
+	// whether a builtin's write lands in storage other values share depends on how the value was made (a list read
+	// from text has spare capacity, one built with L-notation has none): no builtin writes into a value it was handed
+	r.include("C19.values-", "C02.", "no builtin writes into a value it was handed: what a program computes does not depend on how much spare capacity the reader or a constructor left in its literals", checkC02, func(rule string) bool {
+		return rule == "C02.write"
 	})
 	// every delivery route runs the program in the process as it is: no route changes the working directory (file
 	// names in the program would then mean other files on that route)
@@ -6600,4 +6612,50 @@ func getPositionOwnRule(w *World, r *Report, rule string) {
 		}
 	}
 	r.add(rule, gp, "functions of GetPosition", token.NoPos, "ok", fmt.Sprintf("%d examined", n))
+}
+
+// equalityReadsValOnlyRule: two collections are equal when their members are. Equal_Q (and what it is built from
+// in its package) reads no field of a List, Vector, HashMap or Set but Val: metadata, positions and any summary
+// kept beside the members (a cached fingerprint or size) take no part in the answer.
+func equalityReadsValOnlyRule(w *World, r *Report, rule string) {
+	r.rule(rule, "Equal_Q and the functions of package types it is built from read, of a List, Vector, HashMap or Set, the Val field only: equality is decided by the members, not by metadata, positions or cached summaries of the value")
+	eq := w.Fn("types", "Equal_Q")
+	if eq == nil {
+		r.undecided(rule, nil, "types.Equal_Q", token.NoPos, "function no longer resolves")
+		return
+	}
+	n := 0
+	for _, fn := range w.withPkgHelpers(eq) {
+		if fn == nil {
+			continue
+		}
+		for _, b := range fn.Blocks {
+			for _, in := range b.Instrs {
+				var t types.Type
+				field := -1
+				switch x := in.(type) {
+				case *ssa.Field:
+					t, field = x.X.Type(), x.Field
+				case *ssa.FieldAddr:
+					t, field = x.X.Type(), x.Field
+				}
+				if field < 0 {
+					continue
+				}
+				_, name, ok := w.namedStruct(t)
+				if !ok {
+					continue
+				}
+				switch name {
+				case "List", "Vector", "HashMap", "Set":
+				default:
+					continue
+				}
+				n++
+				fname := fieldName(t, field)
+				r.check(fname == "Val", rule, fn, "field of a "+name+" read by the comparison", in.Pos(), "Val", "the comparison reads "+name+"."+fname+": two values with the same members can be told apart (or different ones taken for equal) by something that is not a member")
+			}
+		}
+	}
+	r.floor(rule, "fields of collections read by the comparison", n, 2)
 }
